@@ -28,7 +28,28 @@ BUILDS_THOROUGH=(
  "L7|7|10, 10, 10, 10, 10, 10, 10|4, 4, 4, 4, 4, 4, 4"
  "L5|5|25, 25, 25, 25, 25|1, 1, 1, 1, 1"
 )
-if [ "$tier" = quick ]; then BUILDS=("${BUILDS_QUICK[@]}"); else BUILDS=("${BUILDS_THOROUGH[@]}"); fi
+if [ "$tier" = quick ]; then BUILDS=("${BUILDS_QUICK[@]}"); nswarm=2; else BUILDS=("${BUILDS_THOROUGH[@]}"); nswarm=6; fi
+# swarm builds: knob settings drawn from VERIF_SEED (level count 2..7, per-level maximum height and minimum w
+# drawn independently, so non-monotone and mixed limits arise), on top of the fixed list
+while IFS= read -r line; do BUILDS+=("$line"); done < <(python3 - "$SEED" "$nswarm" <<'PY'
+import sys
+seed, n = int(sys.argv[1]), int(sys.argv[2])
+M = (1 << 64) - 1
+state = (seed * 0x9E3779B97F4A7C15 + 0xC14) & M
+def nxt():
+    global state
+    state = (state + 0x9E3779B97F4A7C15) & M
+    z = state
+    z = ((z ^ (z >> 30)) * 0xBF58476D1CE4E5B9) & M
+    z = ((z ^ (z >> 27)) * 0x94D049BB133111EB) & M
+    return z ^ (z >> 31)
+for i in range(n):
+    L = 2 + nxt() % 6
+    hs = [[5, 10, 15, 20, 25][nxt() % 5] for _ in range(L)]
+    ws = [[1, 2, 4, 8][nxt() % 4] for _ in range(L)]
+    print("S%d|%d|%s|%s" % (i, L, ", ".join(map(str, hs)), ", ".join(map(str, ws))))
+PY
+)
 cfgargs=()
 if [ "$REPO" != "/repo" ]; then cfgargs=(--config "paths=[\"$REPO\"]"); fi
 pieces="$VERIF/scratch/c14-$$"; rm -rf "$pieces"; mkdir -p "$pieces"
